@@ -6,7 +6,7 @@ Require Import BB.Base.Str BB.Base.Xml BB.Model.PegSyntax BB.Model.Unparse.
 Require Import BB.Gen.Grammar BB.Gen.TablesXsl.
 Require Import BB.Base.Dict BB.Model.Peg BB.Model.Types BB.Proofs.Tables BB.Proofs.EscapeLossless.
 Require Import BB.Proofs.Totality BB.Proofs.PegPlain BB.Proofs.EscapedTextParses.
-Require Import BB.Model.UnparseDoc BB.Proofs.UnparseText.
+Require Import BB.Model.UnparseDoc BB.Proofs.UnparseText BB.Proofs.PegLine BB.Proofs.WrittenText.
 
 (* the hand-maintained keyword list of escape-prefixes covers every keyword literal of the grammar,
    except the committed gaps *)
@@ -72,6 +72,39 @@ Theorem C06_text_node_lossless : forall c s,
   unescape (text_out c s) = nl_to_space (if trimmed c then string_ltrim s else s).
 Proof. exact text_out_lossless. Qed.
 Print Assumptions C06_text_node_lossless.
+
+(* the same chain for every text node as the unparser writes it (text_out: escape-inlines-start-end in
+   its context, escape-prefixes where it applies): the grammar reads it up to the line end as a run of
+   inlines that the dict stage turns into text nodes only, spelling the text *)
+Theorem C06_written_text_parses_as_text : forall c s pre rest f f',
+  let t := if trimmed c then string_ltrim s else s in
+  Forall scalar t -> t <> [] ->
+  let e := text_out c s in
+  let inp := pre ++ e ++ NL :: rest in
+  exists ns ds,
+    run akn_peg (13 + f) (Plus (Ref (of_string "inline"))) (e ++ NL :: rest) (len_N pre)
+      = Ok (NL :: rest) (len_N pre + len_N e) (Node (len_N pre) (len_N e) [] [] ns)
+    /\ inline_many inp (to_dict inp (S f')) ns = OkR ds
+    /\ Forall is_dtext ds
+    /\ concat (map dval ds) = nl_to_space t.
+Proof. exact written_text_parses_as_text. Qed.
+Print Assumptions C06_written_text_parses_as_text.
+
+(* block level: whatever text y a paragraph starts with (not the indent control character), the line
+   the unparser writes for it - escape-prefixes(y) up to the line end - is dispatched by
+   hier_block_element to rule `line`: crossheading, the 34 hierarchical keywords, nested blocks, lists,
+   tables, LONGTITLE, FOOTNOTE, QUOTE, BLOCKS and P all fail on it, because every literal they can start
+   with has an entry of the stylesheet's list as a prefix (computed FIRST analysis of the grammar) *)
+Theorem C06_escaped_first_text_is_a_line : forall f y rest off,
+  not_indent_start y = true ->
+  run akn_peg (18 + f) (Ref (of_string "hier_block_element")) (escape_prefixes y ++ NL :: rest) off
+  = run akn_peg (12 + f) (Ref (of_string "line")) (escape_prefixes y ++ NL :: rest) off.
+Proof. exact escaped_first_text_is_a_line. Qed.
+Print Assumptions C06_escaped_first_text_is_a_line.
+
+Example C06_example_block : (length block_lits = 44)%nat /\ escape_prefixes (of_string "PART of") = of_string "\PART of"
+  /\ escape_prefixes (of_string "Paris") = of_string "Paris".
+Proof. repeat split; vm_compute; reflexivity. Qed.
 
 Example C06_example_live : has_live (of_string "a **b** c") = true /\ has_live (of_string "a \**b") = false.
 Proof. split; vm_compute; reflexivity. Qed.
